@@ -122,6 +122,15 @@ def h_roundtrip(si, spelling):
             except Exception as e:
                 ctx.fail("rrulestr(str(rule)) raised %s for %r" % (type(e).__name__, text), key=key + ":raises")
             ctx.check(state(back) == state(rule), "rrulestr(str(rule)) has a different normalised state: %r" % (text,), key=key + ":state")
+            # str() is an observation: a second rendering, and the rule itself afterwards, are unchanged
+            before = state(rule)
+            try:
+                text2 = str(rule)
+                again = rule.replace()
+            except Exception as e:
+                ctx.fail("after one str(rule), a second str(rule) / rule.replace() raised %s" % type(e).__name__, key=key + ":str-twice-raises")
+            ctx.check(text2 == text, "str(rule) differs the second time: %r / %r" % (text, text2), key=key + ":str-twice")
+            ctx.check(state(rule) == before and state(again) == before, "str(rule) changed the rule (or what replace() rebuilds it from)", key=key + ":str-mutates")
             if not shape.get("easter"):
                 ra, rb = rule, back
                 try:
